@@ -188,3 +188,152 @@ class TaskTiming(Contract):
         A = asserted(solver)
         # wrong on purpose: a scheduled task would end strictly before the horizon
         return [Clause("sentinel[end < horizon]", Implies(spec.sched(t), t._end < pb._horizon), hyps=A, props=("C01",), kind="sound")]
+
+
+# ------------------------------------------------------------------------------ C01 / C02 "whatever else the problem contains"
+CONTEXTS = (
+    "objective_incremental",
+    "objective_optimize",
+    "two_objectives",
+    "indicator",
+    "cost_indicator",
+    "buffer",
+    "task_constraint",
+    "optional_rules",
+    "resource_constraint",
+    "selection",
+    "cumulative",
+    "fol",
+    "no_horizon_objective",
+    "debug",
+    # declared constraints keep their meaning next to objectives / in debug mode / with an optimiser
+    "task_constraint+objective_optimize",
+    "resource_constraint+objective_incremental",
+    "fol+debug",
+    "task_constraint+buffer+indicator",
+)
+
+
+@register
+class BasicRulesInContext(Contract):
+    """initialize(): the basic rules (task timing C01, one task at a time per worker C02) are on the solver's stack
+    whatever other elements the problem declares -- objectives (both optimisers), indicators, buffers, task and
+    resource constraints, selections, cumulative workers, logical combinations, debug mode.  The other contracts
+    prove the rules on problems that contain nothing else; this one proves that nothing else switches them off."""
+
+    target = "solver.SchedulingSolver.initialize"
+    inlines = ("solver.SchedulingSolver.create_objective", "solver.SchedulingSolver.append_z3_assertion", "task.Task.add_required_resource")
+    props = ("C01", "C02", "C03", "C04", "C10")
+    bounded = "3 tasks (fixed with release date and soft due date, optional variable-duration, zero-duration) on 1..2 workers, one or several extra element kinds per case; all integers symbolic"
+
+    def cases(self, tier):
+        return [dict(ctx=c) for c in CONTEXTS]
+
+    def scenario(self, ps, P, case):
+        c = case["ctx"]
+        if c == "no_horizon_objective":
+            pb = ps.SchedulingProblem(name="pb")
+        else:
+            P.assume(P.int("H") >= 1)
+            pb = ps.SchedulingProblem(name="pb", horizon=P.int("H"))
+        P.assume(P.int("a_dur") >= 1)
+        P.assume(P.int("b_min") >= 0)
+        a = ps.FixedDurationTask(name="a", duration=P.int("a_dur"), release_date=P.int("a_release"), due_date=P.int("a_due"), due_date_is_deadline=False)
+        b = ps.VariableDurationTask(name="b", min_duration=P.int("b_min"), optional=True, due_date=P.int("b_due"))
+        z = ps.ZeroDurationTask(name="z", due_date=P.int("z_due"), due_date_is_deadline=False)  # (tardiness indicators need a due date on every task)
+        tasks = [a, b, z]
+        w = ps.Worker(name="w")
+        workers = [w]
+        if c == "selection":
+            v = ps.Worker(name="v")
+            workers.append(v)
+            a.add_required_resource(ps.SelectWorkers(list_of_workers=[w, v], nb_workers_to_select=1))
+            b.add_required_resource(w)
+        elif c == "cumulative":
+            cw = ps.CumulativeWorker(name="cw", size=2)
+            workers = list(cw._cumulative_workers)
+            a.add_required_resource(cw)
+            b.add_required_resource(cw)
+        else:
+            a.add_required_resource(w)
+            b.add_required_resource(w)
+        kw = {}
+        parts = c.split("+")
+        if "objective_incremental" in parts or c == "no_horizon_objective":
+            ps.ObjectiveMinimizeMakespan()
+        if "objective_optimize" in parts:
+            ps.ObjectiveMinimizeFlowtime()
+            kw["optimizer"] = "optimize"
+        if "two_objectives" in parts:
+            ps.ObjectiveMinimizeMakespan()
+            ps.ObjectiveMinimizeFlowtime()
+        if "indicator" in parts:
+            ps.IndicatorTardiness()
+            ps.IndicatorResourceUtilization(resource=w)
+            ps.IndicatorNumberOfTardyTasks()
+        if "cost_indicator" in parts:
+            ps.IndicatorResourceCost(list_of_resources=[w])
+            ps.IndicatorResourceIdle(resource=w)
+        if "buffer" in parts:
+            buf = ps.NonConcurrentBuffer(name="buf", initial_level=P.int("init"), lower_bound=0)
+            P.assume(P.int("q") >= 1)
+            ps.TaskUnloadBuffer(task=a, buffer=buf, quantity=P.int("q"))
+            ps.TaskLoadBuffer(task=b, buffer=buf, quantity=P.int("q"))
+        if "task_constraint" in parts:
+            ps.TaskPrecedence(task_before=a, task_after=b, offset=0)
+            ps.TasksStartSynced(task_1=a, task_2=z)
+        if "optional_rules" in parts:
+            ps.OptionalTaskConditionSchedule(task=b, condition=a._start > T(P.int("v")))
+        if "resource_constraint" in parts:
+            P.assume(P.int("lo") >= 0)
+            ps.ResourceUnavailable(resource=w, list_of_time_intervals=[(P.int("lo"), P.int("lo") + 2)])
+            ps.WorkLoad(resource=w, dict_time_intervals_and_bound={(0, 4): P.int("bound")})
+        if "fol" in parts:
+            ps.Or(list_of_constraints=[ps.TaskStartAt(task=a, value=P.int("v")), ps.Not(constraint=ps.TaskEndBefore(task=b, value=P.int("u")))])
+        if "debug" in parts:
+            kw["debug"] = True
+            ps.TaskStartAfter(task=a, value=P.int("v2"))
+        solver = ps.SchedulingSolver(problem=pb, **kw)
+        solver.initialize()
+        return dict(pb=pb, tasks=tasks, workers=workers, solver=solver, w=w)
+
+    def clauses(self, P, ctx, case):
+        from contracts.resource import busy
+
+        pb, tasks, solver = ctx["pb"], ctx["tasks"], ctx["solver"]
+        A = asserted(solver)
+        hz, H = pb._horizon, pb.horizon
+        timing = And(*[Implies(spec.sched(t), spec.task_timing(t, hz, H)) for t in tasks])
+        out = [Clause("sound[task timing holds in every model of the stack, whatever else is declared]", timing, hyps=A, props=("C01",), kind="sound", bounded=self.bounded)]
+        ex = []
+        for w in ctx["workers"]:
+            held = [(t, busy(w, t)) for t in tasks if t in w._busy_intervals]
+            for i in range(len(held)):
+                for j in range(i + 1, len(held)):
+                    (t1, (s1, e1)), (t2, (s2, e2)) = held[i], held[j]
+                    ex.append(Implies(And(spec.sched(t1), spec.sched(t2)), Not(spec.strictly_overlap(s1, e1, s2, e2))))
+        out.append(Clause("sound[no worker busy with two tasks at once, whatever else is declared]", And(*ex), hyps=A, props=("C02",), kind="sound", bounded=self.bounded))
+        # the declared constraints keep their documented meaning next to the other elements
+        parts = case["ctx"].split("+")
+        a, b, z = tasks
+        sa, sb = spec.sched(a), spec.sched(b)
+        if "task_constraint" in parts:
+            M = And(Implies(And(sa, sb), a._end <= b._start), a._start == z._start)
+            out.append(Clause("sound[task constraints hold next to the other elements]", M, hyps=A, props=("C03",), kind="sound", bounded=self.bounded))
+        if "resource_constraint" in parts:
+            w = ctx["w"]
+            lo = T(P.int("lo"))
+            cs, tot = [], []
+            for t in (a, b):
+                bs, be = busy(w, t)
+                cs.append(Implies(And(spec.sched(t), be > bs), Not(spec.strictly_overlap(bs, be, lo, lo + 2))))
+                tot.append(If(spec.sched(t), spec.overlap_len(bs, be, 0, 4), 0))
+            cs.append(z3.Sum(tot) <= T(P.int("bound")))  # WorkLoad: documented default kind "max"
+            out.append(Clause("sound[resource constraints hold next to the other elements]", And(*cs), hyps=A, props=("C04",), kind="sound", bounded=self.bounded))
+        if "fol" in parts:
+            M = Or(a._start == T(P.int("v")), Not(Implies(sb, b._end <= T(P.int("u")))))
+            out.append(Clause("sound[a logical combination holds next to the other elements]", M, hyps=A, props=("C10",), kind="sound", bounded=self.bounded))
+        return out
+
+    def sentinels(self, P, ctx, case):
+        return [Clause("sentinel[false]", z3.BoolVal(False), hyps=asserted(ctx["solver"]), props=("C01", "C02", "C03", "C04", "C10"), kind="sound")]
